@@ -7,6 +7,7 @@ import (
 
 	"golang.org/x/tools/go/ssa"
 
+	"verif/engine/smt"
 	"verif/engine/term"
 )
 
@@ -52,6 +53,7 @@ func init() {
 			return Tuple{x.i64(1), Iface{}}
 		},
 		"strings.Cut": stubUnsupported,
+		RepoModule + "/packet.CRC16": stubCRC16,
 		"time.Sleep":  stubNop,
 	}
 	registerEnvStubs()
@@ -400,4 +402,96 @@ func stubErrorsAs(x *Exec, f *Closure, a []Value, cc *ssa.CallCommon) Value {
 		err = nxt
 	}
 	return x.ctx.False()
+}
+
+// stubCRC16: exact by default (the real code is executed); under Job.AbstractCRC a symbolic input yields an
+// uninterpreted 16-bit value that is a function of the input terms only.
+func stubCRC16(x *Exec, f *Closure, a []Value, cc *ssa.CallCommon) Value {
+	if !x.abstractCRC {
+		return x.call(f.Fn, a, f.Env)
+	}
+	s := a[0].(Slice)
+	n := x.cint(s.Len, "CRC16 len")
+	off := x.cint(s.Off, "CRC16 off")
+	allConst := true
+	var key strings.Builder
+	for i := 0; i < n; i++ {
+		t := s.Arr.Kids[off+i].V.(*term.Term)
+		if !t.IsConst() {
+			allConst = false
+		}
+		fmt.Fprintf(&key, "%d,", t.ID)
+	}
+	if allConst {
+		return x.call(f.Fn, a, f.Env)
+	}
+	if x.crcMemo == nil {
+		x.crcMemo = map[string]*term.Term{}
+	}
+	if v, ok := x.crcMemo[key.String()]; ok {
+		return v
+	}
+	x.crcAbstracted++
+	v := x.ctx.Var(fmt.Sprintf("crc!%d", len(x.crcMemo)), term.BV(16))
+	x.crcMemo[key.String()] = v
+	var ins []*term.Term
+	for i := 0; i < n; i++ {
+		ins = append(ins, s.Arr.Kids[off+i].V.(*term.Term))
+	}
+	x.crcUses = append(x.crcUses, crcUse{fn: f, in: ins, out: v})
+	return v
+}
+
+type crcUse struct {
+	fn  *Closure
+	in  []*term.Term
+	out *term.Term
+}
+
+// refineCRC turns a model found under the CRC abstraction into one in which every abstracted CRC value is the
+// real CRC16 of its (model) input bytes: the inputs are pinned to their model values, the real code is run on
+// those constants, and the solver is asked again. Returns nil if no consistent model exists for these inputs
+// (the job is then re-run with the exact CRC).
+func (x *Exec) refineCRC(extra *term.Term, m map[string]uint64) map[string]uint64 {
+	if len(x.crcUses) == 0 || m == nil {
+		return m
+	}
+	c := x.ctx
+	for attempt := 0; attempt < 3; attempt++ {
+		pin := c.True()
+		memo := map[int]uint64{}
+		consistent := true
+		for _, u := range x.crcUses {
+			arr := x.newArrayCell(x.eng.byteType(), len(u.in))
+			for i, t := range u.in {
+				bv := term.Eval(t, m, memo)
+				arr.Kids[i].V = c.Const(8, bv)
+				pin = c.And(pin, c.Eq(t, c.Const(8, bv)))
+			}
+			n := x.i64(len(u.in))
+			save := x.abstractCRC
+			x.abstractCRC = false
+			real := x.call(u.fn.Fn, []Value{Slice{Arr: arr, Off: x.i64(0), Len: n, Cap: n}}, nil).(*term.Term)
+			x.abstractCRC = save
+			if term.Eval(u.out, m, memo) != real.Val {
+				consistent = false
+			}
+			pin = c.And(pin, c.Eq(u.out, real))
+		}
+		if consistent {
+			return m
+		}
+		q := pin
+		if extra != nil {
+			q = c.And(q, extra)
+		}
+		r, m2 := x.check(q, x.ctx.Vars)
+		if r != smt.Sat {
+			x.needExact = true
+			return nil
+		}
+		m = m2
+	}
+	x.needExact = true
+	return nil
 }
